@@ -1,16 +1,16 @@
 /*@unit {
- 'kind': 'bounded', 'mode': 'plain',
- 'bound': 'pending list of at most NT timers (2 in the quick tier, 3 in the thorough tier) in an arbitrary sorted, well-linked state; one exec(now) in which every timer fires at most MAXFIRE times (1 quick, 2 thorough); loops unwound with unwinding assertions',
+ 'kind': 'bounded', 'mode': 'plain', 'tier': 'thorough',
+ 'bound': 'pending list of at most NT timers (2 in the quick tier, 3 in the thorough tier) in an arbitrary sorted, well-linked state; one exec(now) in which every timer fires at most once (thorough tier only: the run takes ~13 min); loops unwound with unwinding assertions',
  'functions': ['timer_manager_basic::plan(tim)', 'timer_manager_basic::plan(tim,start,interval)', 'timer_manager_basic::exec', 'timer_manager_basic::empty',
                'timer_manager_basic::minimal_interval', 'timer_head_basic::is_planned', 'timer_head_basic::unplan'],
  'extract': ['units/C01/cxx_dlist_extract.py', 'units/C16/manager_extract.py'],
- 'unwind': 5, 'params': {'NT': [2], 'MAXFIRE': [1]}, 'params_thorough': {'NT': [2], 'MAXFIRE': [1, 2]},
+ 'unwind': 5, 'params': {'NT': [2], 'MAXFIRE': [1]},
  'clauses': 'scheduler clauses of C16 on the real (extracted) timer_manager, bounded: after every plan() the pending list is sorted by deadline and holds exactly the planned timers; '
             'during exec(now) a callback never runs before its deadline, callbacks run in non-decreasing deadline order, each firing of a timer is at exactly its previous deadline + interval '
             '(no drift, one firing per elapsed period), a timer that unplans itself in its callback does not fire again, an unplanned timer never fires; after exec no planned timer is due; '
             'empty() and minimal_interval() agree with the reference (time to the earliest pending deadline)',
  'witness': {'unwind': 5},
- 'timeout': 900, 'mem_gb': 24, 'weight': 3,
+ 'timeout': 1200, 'mem_gb': 24, 'weight': 3,
  'assumptions': ['times in [-2^40, 2^40], intervals in [1, 2^40]', 'callbacks either leave the timer planned or unplan it (they do not re-plan other timers)',
                  'std::find_if over dlist iterators == first node satisfying the predicate (R8 stub in the recipe); single-threaded (system_lock removed)'],
 } @*/
